@@ -268,19 +268,101 @@ def boundary_e2e():
     return out
 
 
-# ----------------------------------------------------------------------------- wiring, repeated
+# ----------------------------------------------------------------------------- wiring, repeated; generated formulas end to end
+T_E2E = 12          # ticks fed end to end
+T_FAIL = 3          # the chosen meter delivers None from this tick on
+
+
 def _wiring(eng):
+    """per term: [name, nones_are_zeros, fallback component ids, fallback metric, fallback terms];
+    the fallback formula is generated to see which metric of which components it reads"""
     out = []
     for name, f in sorted(eng._builder._metric_fetchers.items()):  # pylint: disable=protected-access
         fb = f._fallback                                           # pylint: disable=protected-access
-        ids = None if fb is None else sorted(fb._formula_generator._config.component_ids)  # pylint: disable=protected-access
-        out.append([name, bool(f._nones_are_zeros), ids])          # pylint: disable=protected-access
+        if fb is None:
+            out.append([name, bool(f._nones_are_zeros), None, None, None])  # pylint: disable=protected-access
+            continue
+        gen = fb._formula_generator                                # pylint: disable=protected-access
+        ids = sorted(gen._config.component_ids)                    # pylint: disable=protected-access
+        try:
+            sub = gen.generate()
+            metric = sub._builder._metric_id.name                  # pylint: disable=protected-access
+            terms = sorted(sub._builder._metric_fetchers)          # pylint: disable=protected-access
+        except Exception as e:  # pylint: disable=broad-except
+            metric, terms = "error:" + type(e).__name__, None
+        out.append([name, bool(f._nones_are_zeros), ids, metric, terms])  # pylint: disable=protected-access
     return out
 
 
+def val_of(metric, cid, tick):
+    """distinct, recognisable readings: active power 1000*id + tick, reactive power -(10*id + tick) - 50000"""
+    return 1000 * cid + tick if metric == "ACTIVE_POWER" else -(10 * cid + tick) - 50000
+
+
+def _run_generated(I, cls, case, fail_id):
+    """Drive one generated formula end to end: every requested (component, metric) stream of the
+    channel registry is fed one sample per tick; the meter [fail_id] delivers None from T_FAIL on.
+    Streams requested later (the lazily started fallback formula) are fed from then on."""
+    import asyncio
+    import async_solipsism
+    from datetime import datetime, timedelta, timezone
+    from frequenz.quantities import Quantity
+    FG = I.FG
+    tz = timezone(timedelta(hours=case.get("tz_hours", 0)))
+    t0 = datetime(2023, 1, 1, tzinfo=timezone.utc).astimezone(tz)
+    utc0 = datetime(2023, 1, 1, tzinfo=timezone.utc)
+    res = {}
+
+    async def main():
+        reg = I.ChannelRegistry(name="r")
+        ch = I.Broadcast(name="req")
+        req_rx = ch.new_receiver(limit=1000)
+        eng = cls("ns", reg, ch.new_sender(), FG.FormulaGeneratorConfig(allow_fallback=True)).generate()
+        out_rx = eng.new_receiver(max_size=100000)
+        senders = {}
+
+        async def registrar():
+            async for req in req_rx:
+                key = req.get_channel_name()
+                if key not in senders:
+                    senders[key] = (req.component_id, req.metric_id.name,
+                                    reg.get_or_create(I.Sample[Quantity], key).new_sender())
+        asyncio.create_task(registrar())
+        await asyncio.sleep(1.0)
+        for tick in range(T_E2E):
+            for cid, metric, snd in list(senders.values()):
+                v = None if (cid == fail_id and tick >= T_FAIL) else Quantity(float(val_of(metric, cid, tick)))
+                await snd.send(I.Sample(t0 + timedelta(seconds=tick), v))
+            await asyncio.sleep(1.0)
+        out = []
+        while len(out_rx._q):  # pylint: disable=protected-access
+            m = out_rx.consume() if await out_rx.ready() else None
+            us = (m.timestamp - utc0) // timedelta(microseconds=1)
+            out.append([us / 1e6 if us % 1000000 else us // 1000000,
+                        None if m.value is None else round(m.value.base_value)])
+        res["out"] = out
+        res["requested"] = sorted([c, m] for c, m, _ in senders.values())
+        for t in asyncio.all_tasks():
+            if t is not asyncio.current_task():
+                t.cancel()
+        await asyncio.sleep(0)
+
+    loop = async_solipsism.EventLoop()
+    try:
+        loop.run_until_complete(main())
+    finally:
+        loop.close()
+    return res
+
+
+def homogeneous(n):
+    return n["k"] == "M" and bool(n["kids"]) and len({c["k"] for c in n["kids"]}) == 1 and n["kids"][0]["k"] in "PBEC"
+
+
 def run_wiring(case):
-    """Generate the same fallback-capable formulas `reps` times (different namespaces) on ONE
-    component-graph object.  case: {"roots": tree (format of harness/graph.py), "reps": n}"""
+    """Generate every fallback-capable formula `reps` times (different namespaces) on ONE
+    component-graph object, and drive the grid power / grid reactive power formulas end to end.
+    case: {"roots": tree (format of harness/graph.py), "reps": n, "tz_hours": h}"""
     from types import SimpleNamespace
     from harness import graph as G
     I = G._imports()                                               # pylint: disable=protected-access
@@ -288,11 +370,13 @@ def run_wiring(case):
     I.cm._CONNECTION_MANAGER = SimpleNamespace(component_graph=g, api_client=None)  # pylint: disable=protected-access
     FG = I.FG
     bats, pv, ev = G.device_ids(case["roots"])
-    plan = {"pv": (FG.PVPowerFormula, pv), "ev": (FG.EVChargerPowerFormula, ev), "battery": (FG.BatteryPowerFormula, bats)}
+    plan = {"pv": (FG.PVPowerFormula, pv), "ev": (FG.EVChargerPowerFormula, ev), "battery": (FG.BatteryPowerFormula, bats),
+            "grid": (FG.GridPowerFormula, None), "grid_q": (FG.GridReactivePowerFormula, None),
+            "producer": (FG.ProducerPowerFormula, None), "consumer": (FG.ConsumerPowerFormula, None)}
     obs = {}
     try:
         for kind, (cls, ids) in plan.items():
-            if not ids:
+            if ids is not None and not ids:
                 continue
             runs = []
             for r in range(case["reps"]):
@@ -300,19 +384,26 @@ def run_wiring(case):
                 ch = I.Broadcast(name="req")
                 try:
                     eng = cls(f"ns{r}", reg, ch.new_sender(),
-                              FG.FormulaGeneratorConfig(component_ids=set(ids), allow_fallback=True)).generate()
-                    runs.append({"formula": str(eng), "terms": _wiring(eng)})
+                              FG.FormulaGeneratorConfig(component_ids=None if ids is None else set(ids),
+                                                        allow_fallback=True)).generate()
+                    runs.append({"formula": str(eng), "metric": eng._builder._metric_id.name,  # pylint: disable=protected-access
+                                 "terms": _wiring(eng)})
                 except Exception as e:  # pylint: disable=broad-except
                     runs.append({"error": type(e).__name__})
             obs[kind] = runs
+        fail = next((n["id"] for n in case["roots"] if homogeneous(n)), None)
+        if fail is not None and case.get("e2e", True):
+            obs["e2e"] = {"fail": fail,
+                          "grid": _run_generated(I, FG.GridPowerFormula, case, fail),
+                          "grid_q": _run_generated(I, FG.GridReactivePowerFormula, case, fail)}
     finally:
         I.cm._CONNECTION_MANAGER = None                            # pylint: disable=protected-access
     return obs
 
 
 def expected_wiring(roots, kind):
-    """devices requested by id: a meter whose successors are exactly requested devices of the kind is the
-    primary term and they are its fallback; any other requested device is its own term, no fallback"""
+    """PV devices requested by id: a meter (not the grid meter) whose successors are exactly requested PV
+    inverters is the primary term and they are its fallback; any other requested device is its own term"""
     from harness import graph as G
     k = {"pv": "P"}[kind]
     terms = []
@@ -328,14 +419,26 @@ def expected_wiring(roots, kind):
     return sorted(terms)
 
 
+def expected_grid_wiring(roots):
+    """grid (reactive) power: one term per grid successor; a meter with a homogeneous group behind it
+    (only PV inverters / only battery inverters / only EV chargers / only CHPs) has that group as its
+    fallback -- also when it is the grid's single successor"""
+    return sorted([f"#{n['id']}", n["k"] != "M", sorted(c["id"] for c in n["kids"]) if homogeneous(n) else None]
+                  for n in roots if n["k"] in "MPBE")
+
+
 class WiringStream(Stream):
-    """the same fallback-capable formula generated several times on one graph object"""
+    """every fallback-capable formula generated several times on one graph object; grid power and grid
+    reactive power driven end to end with a meter going None"""
     name = "wiring"
     coq_header = FB.HEADER
     n_quick = 60
     n_thorough = 600
 
     def gen(self, rng, tier):
+        yield {"roots": [{"k": "M", "id": 2, "kids": [{"k": "P", "id": 4}, {"k": "P", "id": 5}]}], "reps": 2, "tz_hours": 0}
+        yield {"roots": [{"k": "M", "id": 2, "kids": [{"k": "M", "id": 6, "kids": []}]},
+                         {"k": "M", "id": 3, "kids": [{"k": "P", "id": 4}, {"k": "P", "id": 5}]}], "reps": 2, "tz_hours": 2}
         for _ in range(self.n_quick if tier == "quick" else self.n_thorough):
             nid = [1]
 
@@ -343,9 +446,10 @@ class WiringStream(Stream):
                 nid[0] += 1
                 return nid[0]
             roots = []
-            for _m in range(rng.randint(1, 3)):
+            for _m in range(rng.choice([1, 1, 2, 3])):
                 kind = rng.choice("PPEB")
-                def dev():
+
+                def dev(kind=kind):
                     d = {"k": kind, "id": fresh()}
                     if kind == "B":
                         d["bats"] = [fresh() for _ in range(rng.randint(1, 2))]
@@ -353,10 +457,12 @@ class WiringStream(Stream):
                 if rng.random() < 0.8:
                     m = {"k": "M", "id": fresh(), "kids": []}
                     m["kids"] = [dev() for _ in range(rng.randint(1, 3))]
+                    if rng.random() < 0.12:
+                        m["kids"].append(dev(rng.choice("PEB")))     # sometimes a mixed group: no fallback
                     roots.append(m)
                 else:
                     roots.append(dev())
-            yield {"roots": roots, "reps": rng.choice([2, 2, 3])}
+            yield {"roots": roots, "reps": rng.choice([2, 2, 3]), "tz_hours": rng.choice([0, 0, 1, 2, -5])}
 
     def run_impl(self, case):
         return run_wiring(case)
@@ -365,12 +471,18 @@ class WiringStream(Stream):
         return None
 
     def key(self, case, obs):
-        return json.dumps(case["roots"])
+        return json.dumps([case["roots"], case.get("tz_hours", 0)])
 
     def labels(self, case, obs):
-        out = [f"reps={case['reps']}"] + [f"formula={k}" for k in sorted(obs)]
-        if any(t[2] is not None for runs in obs.values() for r in runs[:1] for t in r.get("terms", [])):
+        out = [f"reps={case['reps']}"] + [f"formula={k}" for k in sorted(obs) if k != "e2e"]
+        if any(t[2] is not None for k, runs in obs.items() if k != "e2e" for r in runs[:1] for t in r.get("terms", [])):
             out.append("has_fallback_term")
+        if "e2e" in obs:
+            out.append("end_to_end(meter None -> fallback)")
+        if len(case["roots"]) == 1 and homogeneous(case["roots"][0]):
+            out.append("grid_single_successor_is_group_meter")
+        if case.get("tz_hours"):
+            out.append("non_UTC_timestamps")
         return out
 
     def shrink(self, case):
@@ -379,18 +491,70 @@ class WiringStream(Stream):
                 yield {**case, "roots": case["roots"][:i] + case["roots"][i + 1:]}
         if case["reps"] > 2:
             yield {**case, "reps": 2}
+        if case.get("tz_hours"):
+            yield {**case, "tz_hours": 0}
 
     def oracle(self, case, obs):
         probs = []
+        roots = case["roots"]
         for kind, runs in sorted(obs.items()):
+            if kind == "e2e":
+                continue
             for r, run in enumerate(runs[1:], 1):
                 if run != runs[0]:
                     probs.append(f"repeat: {kind} formula generated the {r + 1}. time on the same graph is {run} but the first was {runs[0]}")
                     break
-            if kind == "pv" and "terms" in runs[0]:      # (the EV charger formula has no fallback wiring)
-                want = expected_wiring(case["roots"], kind)
-                if sorted(runs[0]["terms"]) != want:
-                    probs.append(f"wiring: {kind} formula terms {runs[0]['terms']} but the topology asks for {want}")
+            first = runs[0]
+            if "terms" not in first:
+                continue
+            # the fallback must read the SAME metric as the primary, from the fallback components
+            for name, _nz, ids, metric, terms in first["terms"]:
+                if ids is not None and metric != first["metric"]:
+                    probs.append(f"metric: the fallback of term {name} of the {kind} formula reads {metric}, the primary reads {first['metric']}")
+                    break
+            if kind == "pv":      # (the EV charger formula has no fallback wiring)
+                want = expected_wiring(roots, kind)
+                if sorted(t[:3] for t in first["terms"]) != want:
+                    probs.append(f"wiring: {kind} formula terms {[t[:3] for t in first['terms']]} but the topology asks for {want}")
+            if kind in ("grid", "grid_q"):
+                want = expected_grid_wiring(roots)
+                if sorted(t[:3] for t in first["terms"]) != want:
+                    probs.append(f"wiring: {kind} formula terms {[t[:3] for t in first['terms']]} but the topology asks for {want}")
+        e2e = obs.get("e2e")
+        if e2e:
+            fail = e2e["fail"]
+            for kind, metric in (("grid", "ACTIVE_POWER"), ("grid_q", "REACTIVE_POWER")):
+                out = e2e[kind]["out"]
+                seen = {}
+                for tick, v in out:
+                    if tick in seen:
+                        probs.append(f"e2e {kind}: timestamp {tick} s emitted twice")
+                        break
+                    seen[tick] = v
+                # after the start-up window every tick must be there with the sum over the grid successors,
+                # the failed meter replaced by the sum of its group in the SAME metric
+                for tick in range(T_FAIL + 4, T_E2E):
+                    want = 0
+                    for n in roots:
+                        if n["k"] not in "MPBE":
+                            continue
+                        if n["id"] == fail:
+                            want += sum(val_of(metric, c["id"], tick) for c in n["kids"])
+                        else:
+                            want += val_of(metric, n["id"], tick)
+                    if tick not in seen:
+                        probs.append(f"e2e {kind}: no sample for t={tick} s (emitted timestamps {sorted(seen)[:6]}...): "
+                                     f"meter {fail} is None from t={T_FAIL} s, its group must take over")
+                        break
+                    if seen[tick] != want:
+                        probs.append(f"e2e {kind}: at t={tick} s the formula gives {seen[tick]} but meter {fail} is None and the "
+                                     f"{metric} readings of the grid successors / its group sum to {want}")
+                        break
+                for tick in range(0, T_FAIL):
+                    want = sum(val_of(metric, n["id"], tick) for n in roots if n["k"] in "MPBE")
+                    if tick in seen and seen[tick] != want:
+                        probs.append(f"e2e {kind}: at t={tick} s (all valid) the formula gives {seen[tick]}, the grid successors sum to {want}")
+                        break
         return [{"what": p, "finding": None} for p in probs]
 
 
